@@ -82,6 +82,8 @@ def units():
     u["cases_off"] = dict(src=d + "/drv_cases.cpp", flags=_lib_flags(), mode="full", tier="quick")
     u["cases_on"] = dict(src=d + "/drv_cases.cpp", flags=_lib_flags() + [CHK], mode="full", tier="thorough")
     u["controls"] = dict(src=d + "/controls.cpp", flags=_lib_flags() + [CHK], mode="full", tier="quick")
+    u["controls_eigen"] = dict(src=d + "/controls_eigen.cpp", flags=_lib_flags() + [
+        "-isystem", "/usr/include/eigen3"], mode="full", tier="quick")
     ex = os.path.join(REPO, "examples")
     if os.path.isdir(ex):
         for f in sorted(os.listdir(ex)):
